@@ -4,9 +4,9 @@
    Prank.lookup, creator widths, vm.random* dispatch) is regenerated from
    /repo/src/halmos/{cheatcodes,console,sevm}.py on every run. *)
 From Coq Require Import ZArith NArith List Bool String.
-From HV Require Import Base.Keccak Base.SmtBV Gen.GenCheatSelectors Spec.FoundrySpec
-  Gen.GenCopies Model.PrankModel Model.CheatModel Model.ForkModel
-  Proofs.PrankProofs Proofs.CheatSelProofs Proofs.CheatProofs Proofs.ForkProofs.
+From HV Require Import Base.Keccak Base.SmtBV Gen.GenCheatSelectors Spec.FoundrySpec Spec.PrankKindSpec
+  Gen.GenCopies Gen.GenPrankUse Model.PrankModel Model.PrankKindModel Model.CheatModel Model.ForkModel
+  Proofs.PrankProofs Proofs.PrankKindProofs Proofs.CheatSelProofs Proofs.CheatProofs Proofs.ForkProofs.
 Import ListNotations.
 Open Scope Z_scope.
 
@@ -94,6 +94,100 @@ Example C14_prank_nonvacuous :
 Proof.
   cbv zeta. split.
   - repeat constructor; cbn; vm_compute; intuition discriminate.
+  - vm_compute. reflexivity.
+Qed.
+
+(* ------------------------------------------------------------------ prank x call kind x value
+   Model/PrankKindModel.v: what SEVM.call / SEVM.create do with the resolved prank for CALL, CALLCODE,
+   DELEGATECALL, STATICCALL, CREATE and CREATE2 -- which expression becomes the Message's target /
+   caller / origin / value, which account handle_insufficient_fund_case and transfer_value are given --
+   every selection regenerated from sevm.py (Gen/GenPrankUse.v) on every run.
+   Spec/PrankKindSpec.v: the EVM's call family with the calling account replaced by the prank in force.
+
+   For EVERY finite sequence of prank-family calls (one- and two-argument, one-shot and persistent),
+   stopPrank, cheatcode calls, message calls of every kind, creations of both kinds -- each with any
+   value --, returns and balance reads, from every top-level frame and every initial balance map:
+   ADDRESS / CALLER / ORIGIN / CALLVALUE seen by each entered frame, which calls fail for lack of funds
+   (decided on the PRANKED account's balance) and every balance read afterwards equal the specification's.
+   (ks_scope: a value-bearing CALLCODE is made from the executing account itself, see C14_prank_callcode_value_outside.) *)
+Theorem C14_prank_kinds :
+  forall this sender origin value b ops,
+    Forall ktarget_ok ops -> ks_scope [ks_fresh this sender origin value] b ops = true ->
+    km_run [k_fresh this sender origin value] b ops = ks_run [ks_fresh this sender origin value] b ops.
+Proof. exact prank_kinds. Qed.
+Print Assumptions C14_prank_kinds.
+
+(* the failing and the continuing side of the funds fork talk about the same account for every kind:
+   no input is dropped (covered by no path) or covered by both *)
+Theorem C14_prank_kinds_total :
+  forall this sender origin value b ops,
+    Forall ktarget_ok ops -> ks_scope [ks_fresh this sender origin value] b ops = true ->
+    ~ In KObsLost (km_run [k_fresh this sender origin value] b ops) /\
+    ~ In KObsDouble (km_run [k_fresh this sender origin value] b ops).
+Proof. exact prank_kinds_total. Qed.
+Print Assumptions C14_prank_kinds_total.
+
+(* stated directly on one step: a prank (s, og) in force decides msg.sender of the next call of EVERY
+   kind but DELEGATECALL, tx.origin when given, whose balance must cover the value; a one-shot prank
+   is used up by that call -- also when it fails for lack of funds -- and the entered frame has none *)
+Theorem C14_prank_every_call_kind :
+  forall k a v this caller origin cv s og keep rest b,
+  ~ In a cheatcode_addresses -> k <> CkDelegate ->
+  let f := {| k_f := {| m_this := this; m_caller := caller; m_origin := origin;
+                        m_prank := {| active := {| p_sender := Some s; p_origin := og |}; keep := keep |} |};
+              k_value := cv |} in
+  let o' := match og with Some x => x | None => origin end in
+  let after := {| k_f := {| m_this := this; m_caller := caller; m_origin := origin;
+                            m_prank := if keep then m_prank (k_f f) else fresh_prank |}; k_value := cv |} in
+  (short (b s) (moved k v) = true /\ km_step (f :: rest) b (KCallK k a v) = KMOk (after :: rest) b [KObsNoFunds]) \/
+  (short (b s) (moved k v) = false /\
+   exists g b', km_step (f :: rest) b (KCallK k a v) = KMOk (g :: after :: rest) b' [k_obs g] /\
+     m_caller (k_f g) = s /\ m_origin (k_f g) = o' /\ k_value g = moved k v /\ m_prank (k_f g) = fresh_prank /\
+     m_this (k_f g) = match k with CkCall | CkStatic => a | _ => this end).
+Proof. exact pending_prank_every_kind. Qed.
+Print Assumptions C14_prank_every_call_kind.
+
+(* ... and of a creation of either kind, which is paid for by the pranked account *)
+Theorem C14_prank_every_create_kind :
+  forall k a v this caller origin cv s og keep rest b,
+  let f := {| k_f := {| m_this := this; m_caller := caller; m_origin := origin;
+                        m_prank := {| active := {| p_sender := Some s; p_origin := og |}; keep := keep |} |};
+              k_value := cv |} in
+  let o' := match og with Some x => x | None => origin end in
+  let after := {| k_f := {| m_this := this; m_caller := caller; m_origin := origin;
+                            m_prank := if keep then m_prank (k_f f) else fresh_prank |}; k_value := cv |} in
+  (short (b s) v = true /\ km_step (f :: rest) b (KCreate k a v) = KMOk (after :: rest) b [KObsNoFunds]) \/
+  (short (b s) v = false /\
+   exists b', km_step (f :: rest) b (KCreate k a v) = KMOk (k_fresh a s o' v :: after :: rest) b' [KObs a s o' v] /\
+              forall x, b' x = move b s a v x).
+Proof. exact pending_prank_create. Qed.
+Print Assumptions C14_prank_every_create_kind.
+
+(* outside the fragment (and said so): under a prank of ANOTHER address a CALLCODE that carries value
+   moves nothing in halmos (SEVM.call's send_callvalue only requires the pranked account to hold it) *)
+Theorem C14_prank_callcode_value_outside :
+  km_run [k_fresh 1 2 3 0] gap_bal gap_ops <> ks_run [ks_fresh 1 2 3 0] gap_bal gap_ops /\
+  ks_scope [ks_fresh 1 2 3 0] gap_bal gap_ops = false.
+Proof. exact callcode_value_gap. Qed.
+Print Assumptions C14_prank_callcode_value_outside.
+
+Example C14_prank_kinds_nonvacuous :
+  (* account 1 (holding 10) pranks as 7 (holding 100): a value-bearing CALL, then a persistent two-argument
+     prank over CALLCODE / STATICCALL / DELEGATECALL / CREATE2 with value, a CREATE the pranked account cannot pay *)
+  let b0 : balances := fun a => if a =? 7 then 100 else if a =? 1 then 10 else 0 in
+  let ops := [KPrank false 7 None; KCallK CkCall 20 30; KReturn; KBalance 7; KBalance 1; KBalance 20;
+              KPrank true 7 (Some 8); KCallK CkCallcode 21 0; KReturn; KCallK CkStatic 22 0; KReturn;
+              KCallK CkDelegate 23 0; KReturn; KCreate NkCreate2 24 60; KReturn; KCreate NkCreate 25 60; KBalance 7; KBalance 24;
+              KStopPrank; KCallK CkCallcode 26 4] in
+  Forall ktarget_ok ops /\ ks_scope [ks_fresh 1 2 3 0] b0 ops = true /\
+  km_run [k_fresh 1 2 3 0] b0 ops =
+    [KObs 20 7 3 30; KObsBal 70; KObsBal 10; KObsBal 30;
+     KObs 1 7 8 0; KObs 22 7 8 0; KObs 1 2 8 0; KObs 24 7 8 60; KObsNoFunds; KObsBal 10; KObsBal 60;
+     KObs 1 1 3 4].
+Proof.
+  cbv zeta. split; [|split].
+  - repeat constructor; cbn; vm_compute; intuition discriminate.
+  - vm_compute. reflexivity.
   - vm_compute. reflexivity.
 Qed.
 
